@@ -710,12 +710,14 @@ theorem resolve_cases {inp : List Entry} (hnc : NoLinkCycle inp) (k : Name) :
 /-- The step for the listed path `l`: starting from the group `before`, the block `b` is appended.
 Every entry of `b` is `l` itself or something `l` needs; if nothing `l` needs is missing then
 `l`'s entry is in the group afterwards and, unless it had been placed earlier already, it is the
-LAST entry of the block (all of its not-yet-placed prerequisites come before it). -/
+LAST entry of the block (all of its not-yet-placed prerequisites come before it) — the
+alternative `SelfReach` needs a cycle in the parent/hardlink graph (`not_selfReach`). -/
 def BlockOK (inp : List Entry) (l : String) (before b : List Entry) : Prop :=
   (∀ x ∈ b, Reach inp (cleanEntryName l) x.key) ∧
   (¬ Missing inp (cleanEntryName l) →
     PlacedIn inp (before ++ b) (cleanEntryName l) ∧
-    ∀ e, get inp (cleanEntryName l) = some e → e ∉ before → b.getLast? = some e)
+    ∀ e, get inp (cleanEntryName l) = some e → e ∉ before →
+      b.getLast? = some e ∨ SelfReach inp (cleanEntryName l))
 
 /-- One block per listed path, in the order of the list. -/
 def StepsOK (inp : List Entry) : List String → List Entry → List (List Entry) → Prop
@@ -727,25 +729,26 @@ def StepsOK (inp : List Entry) : List String → List Entry → List (List Entry
 def missedOf (inp : List Entry) (ls : List String) : List String :=
   ls.filter (fun l => resolve inp (moveFuel inp) (cleanEntryName l) == .notFound)
 
-theorem sortLoop_spec {inp : List Entry} (hnc : NoLinkCycle inp) (allow : Bool) :
+/-- What a run of the loop that RETURNED guarantees — for every tar, cyclic or not. -/
+theorem sortLoop_spec {inp : List Entry} (allow : Bool) :
     ∀ ls st missed, Inv inp st →
-      sortLoop inp (moveFuel inp) allow ls st missed ≠ .diverge ∧
       (sortLoop inp (moveFuel inp) allow ls st missed = .err →
         allow = false ∧ ∃ l ∈ ls, Missing inp (cleanEntryName l)) ∧
       (∀ st' missed', sortLoop inp (moveFuel inp) allow ls st missed = .done st' missed' →
         Inv inp st' ∧
         (∃ blocks, st'.out = st.out ++ blocks.flatten ∧ StepsOK inp ls st.out blocks) ∧
         missed' = missed ++ missedOf inp ls ∧
+        (∀ l ∈ ls, resolve inp (moveFuel inp) (cleanEntryName l) ≠ .diverge) ∧
         (allow = false → ∀ l ∈ ls, ¬ Missing inp (cleanEntryName l))) := by
   intro ls
   induction ls with
   | nil =>
     intro st missed h
-    refine ⟨by simp [sortLoop], by simp [sortLoop], ?_⟩
+    refine ⟨by simp [sortLoop], ?_⟩
     intro st' missed' hd
     simp only [sortLoop, LoopRes.done.injEq] at hd
     obtain ⟨rfl, rfl⟩ := hd
-    exact ⟨h, ⟨[], by simp, trivial⟩, by simp [missedOf], by simp⟩
+    exact ⟨h, ⟨[], by simp, trivial⟩, by simp [missedOf], by simp, by simp⟩
   | cons l ls ih =>
     intro st missed h
     have hm := moveRec_spec inp (moveFuel inp) (cleanEntryName l) st h
@@ -754,68 +757,111 @@ theorem sortLoop_spec {inp : List Entry} (hnc : NoLinkCycle inp) (allow : Bool) 
     rcases hr : moveRec inp (moveFuel inp) (cleanEntryName l) st with ⟨st1, s1⟩
     rw [hr] at hm hb hlast hstat
     simp only at hb hlast hstat
-    rcases resolve_cases hnc (cleanEntryName l) with ⟨hres, hmiss⟩ | ⟨hres, hmiss⟩
-    · -- placed
-      rw [hres] at hstat
-      subst hstat
-      obtain ⟨ih1, ih2, ih3⟩ := ih st1 missed hm.inv
+    cases s1 with
+    | ok =>
+      have hres : resolve inp (moveFuel inp) (cleanEntryName l) = .ok := hstat.symm
+      have hmiss : ¬ Missing inp (cleanEntryName l) := resolve_ok _ _ hres
+      obtain ⟨ih2, ih3⟩ := ih st1 missed hm.inv
       have hloop : sortLoop inp (moveFuel inp) allow (l :: ls) st missed =
           sortLoop inp (moveFuel inp) allow ls st1 missed := by
         simp only [sortLoop, hr]
       rw [hloop]
-      refine ⟨ih1, ?_, ?_⟩
+      refine ⟨?_, ?_⟩
       · intro he
         obtain ⟨ha, l', hl', hm'⟩ := ih2 he
         exact ⟨ha, l', List.mem_cons_of_mem _ hl', hm'⟩
       · intro st' missed' hd
-        obtain ⟨hinv', ⟨blocks, hout, hsteps⟩, hmissed, hall⟩ := ih3 st' missed' hd
-        refine ⟨hinv', ⟨b :: blocks, ?_, ?_⟩, ?_, ?_⟩
+        obtain ⟨hinv', ⟨blocks, hout, hsteps⟩, hmissed, hnd, hall⟩ := ih3 st' missed' hd
+        refine ⟨hinv', ⟨b :: blocks, ?_, ?_⟩, ?_, ?_, ?_⟩
         · rw [hout, hb, List.flatten_cons, List.append_assoc]
         · refine ⟨⟨hreach, fun _ => ⟨?_, ?_⟩⟩, ?_⟩
           · rw [← hb]; exact hm.placed rfl
           · intro e he hne
-            rcases hlast rfl e he hne with h' | h'
-            · exact h'
-            · exact absurd h' (not_selfReach hnc _)
+            exact hlast rfl e he hne
           · rw [← hb]; exact hsteps
         · rw [hmissed]
           simp [missedOf, hres]
+        · intro l' hl'
+          rcases List.mem_cons.mp hl' with rfl | hl''
+          · rw [hres]; simp
+          · exact hnd l' hl''
         · intro ha l' hl'
           rcases List.mem_cons.mp hl' with rfl | hl''
           · exact hmiss
           · exact hall ha l' hl''
-    · -- not found
-      rw [hres] at hstat
-      subst hstat
+    | notFound =>
+      have hres : resolve inp (moveFuel inp) (cleanEntryName l) = .notFound := hstat.symm
+      have hmiss : Missing inp (cleanEntryName l) := resolve_notFound _ _ hres
       cases allow with
       | false =>
         have hloop : sortLoop inp (moveFuel inp) false (l :: ls) st missed = .err := by
           simp only [sortLoop, hr]
           simp
         rw [hloop]
-        refine ⟨by simp, fun _ => ⟨rfl, l, List.mem_cons_self .., hmiss⟩, ?_⟩
+        refine ⟨fun _ => ⟨rfl, l, List.mem_cons_self .., hmiss⟩, ?_⟩
         intro st' missed' hd
         cases hd
       | true =>
-        obtain ⟨ih1, ih2, ih3⟩ := ih st1 (missed ++ [l]) hm.inv
+        obtain ⟨ih2, ih3⟩ := ih st1 (missed ++ [l]) hm.inv
         have hloop : sortLoop inp (moveFuel inp) true (l :: ls) st missed =
             sortLoop inp (moveFuel inp) true ls st1 (missed ++ [l]) := by
           simp only [sortLoop, hr]
           simp
         rw [hloop]
-        refine ⟨ih1, ?_, ?_⟩
+        refine ⟨?_, ?_⟩
         · intro he
           obtain ⟨ha, _⟩ := ih2 he
           cases ha
         · intro st' missed' hd
-          obtain ⟨hinv', ⟨blocks, hout, hsteps⟩, hmissed, _⟩ := ih3 st' missed' hd
-          refine ⟨hinv', ⟨b :: blocks, ?_, ?_⟩, ?_, ?_⟩
+          obtain ⟨hinv', ⟨blocks, hout, hsteps⟩, hmissed, hnd, _⟩ := ih3 st' missed' hd
+          refine ⟨hinv', ⟨b :: blocks, ?_, ?_⟩, ?_, ?_, ?_⟩
           · rw [hout, hb, List.flatten_cons, List.append_assoc]
           · refine ⟨⟨hreach, fun hnm => absurd hmiss hnm⟩, ?_⟩
             rw [← hb]; exact hsteps
           · rw [hmissed]
             simp [missedOf, hres]
+          · intro l' hl'
+            rcases List.mem_cons.mp hl' with rfl | hl''
+            · rw [hres]; simp
+            · exact hnd l' hl''
           · intro ha; cases ha
+    | diverge =>
+      have hloop : sortLoop inp (moveFuel inp) allow (l :: ls) st missed = .diverge := by
+        simp only [sortLoop, hr]
+      rw [hloop]
+      refine ⟨?_, ?_⟩
+      · intro h'; cases h'
+      · intro _ _ h'; cases h'
+
+/-- … and the loop does return when the parent/hardlink graph has no cycle. -/
+theorem sortLoop_terminates {inp : List Entry} (hnc : NoLinkCycle inp) (allow : Bool) :
+    ∀ ls st missed, Inv inp st → sortLoop inp (moveFuel inp) allow ls st missed ≠ .diverge := by
+  intro ls
+  induction ls with
+  | nil => intro st missed _; simp [sortLoop]
+  | cons l ls ih =>
+    intro st missed h
+    have hm := moveRec_spec inp (moveFuel inp) (cleanEntryName l) st h
+    have hstat := hm.status
+    rcases hr : moveRec inp (moveFuel inp) (cleanEntryName l) st with ⟨st1, s1⟩
+    rw [hr] at hm hstat
+    simp only at hstat
+    cases s1 with
+    | ok =>
+      have hloop : sortLoop inp (moveFuel inp) allow (l :: ls) st missed =
+          sortLoop inp (moveFuel inp) allow ls st1 missed := by
+        simp only [sortLoop, hr]
+      rw [hloop]; exact ih st1 missed hm.inv
+    | notFound =>
+      cases allow with
+      | false => simp [sortLoop, hr]
+      | true =>
+        have hloop : sortLoop inp (moveFuel inp) true (l :: ls) st missed =
+            sortLoop inp (moveFuel inp) true ls st1 (missed ++ [l]) := by
+          simp only [sortLoop, hr]
+          simp
+        rw [hloop]; exact ih st1 _ hm.inv
+    | diverge => exact absurd hstat.symm (resolve_terminates hnc _)
 
 /-! ## Dumping the rest -/
 
@@ -1174,10 +1220,9 @@ theorem sortEntries_nil (es : List Entry) (allow : Bool) :
     sortEntries es [] allow = .ok (landmarkEntry noPrefetchLandmark :: importTar es) [] := by
   simp [sortEntries, sortLoop, dump, landmarkFor]
 
-/-- Everything the property theorems need about a run of `sortEntries`, in one place. -/
-theorem sortEntries_structure {es : List Entry} (prio : List String) (allow : Bool)
-    (hnc : NoLinkCycle (importTar es)) :
-    sortEntries es prio allow ≠ .diverge ∧
+/-- Everything the property theorems need about a run of `sortEntries` that returned, in one
+place — for every tar and every list. -/
+theorem sortEntries_structure {es : List Entry} (prio : List String) (allow : Bool) :
     (sortEntries es prio allow = .err →
       allow = false ∧ ∃ l ∈ prio, Missing (importTar es) (cleanEntryName l)) ∧
     (∀ out missed, sortEntries es prio allow = .ok out missed →
@@ -1189,29 +1234,53 @@ theorem sortEntries_structure {es : List Entry} (prio : List String) (allow : Bo
         KeysNodup blocks.flatten ∧
         ClosedR (importTar es) blocks.flatten.reverse ∧
         missed = missedOf (importTar es) prio ∧
+        (∀ l ∈ prio, resolve (importTar es) (moveFuel (importTar es)) (cleanEntryName l) ≠ .diverge) ∧
         (allow = false → ∀ l ∈ prio, ¬ Missing (importTar es) (cleanEntryName l))) := by
-  obtain ⟨h1, h2, h3⟩ := sortLoop_spec hnc allow prio ⟨[], []⟩ [] (Inv.empty _)
+  obtain ⟨h2, h3⟩ := sortLoop_spec (inp := importTar es) allow prio ⟨[], []⟩ [] (Inv.empty _)
   unfold sortEntries
   simp only
   cases hl : sortLoop (importTar es) (moveFuel (importTar es)) allow prio ⟨[], []⟩ [] with
-  | diverge => exact absurd hl h1
+  | diverge =>
+    refine ⟨by simp, ?_⟩
+    intro out missed h; cases h
   | err =>
-    refine ⟨by simp, fun _ => h2 hl, ?_⟩
+    refine ⟨fun _ => h2 hl, ?_⟩
     intro out missed h; cases h
   | done st missed' =>
-    refine ⟨by simp, by simp, ?_⟩
+    refine ⟨by simp, ?_⟩
     intro out missed h
     simp only [Outcome.ok.injEq] at h
     obtain ⟨hout, hmissed⟩ := h
-    obtain ⟨hinv, ⟨blocks, hblocks, hsteps⟩, hm, hall⟩ := h3 st missed' hl
+    obtain ⟨hinv, ⟨blocks, hblocks, hsteps⟩, hm, hnd, hall⟩ := h3 st missed' hl
     simp only [List.nil_append] at hblocks hm
-    refine ⟨blocks, ?_, hsteps, ?_, ?_, ?_, ?_, hall⟩
+    refine ⟨blocks, ?_, hsteps, ?_, ?_, ?_, ?_, hnd, hall⟩
     · rw [← hout, dump_picked hinv (importTar_keysNodup es), ← hblocks]
       simp [dump]
     · rw [← hblocks]; exact hinv.out_subset
     · rw [← hblocks]; exact hinv.nodup
     · rw [← hblocks]; exact hinv.closed
     · rw [← hmissed, hm]
+
+theorem sortEntries_ne_diverge {es : List Entry} (hnc : NoLinkCycle (importTar es))
+    (prio : List String) (allow : Bool) : sortEntries es prio allow ≠ .diverge := by
+  have := sortLoop_terminates hnc allow prio ⟨[], []⟩ [] (Inv.empty _)
+  unfold sortEntries
+  simp only
+  cases hl : sortLoop (importTar es) (moveFuel (importTar es)) allow prio ⟨[], []⟩ [] with
+  | diverge => exact absurd hl this
+  | err => simp
+  | done st missed' => simp
+
+/-- For a name whose status is not `diverge`: it is reported missing iff it is `Missing`. -/
+theorem resolve_notFound_iff {inp : List Entry} {f : Nat} {k : Name}
+    (h : resolve inp f k ≠ .diverge) : resolve inp f k = .notFound ↔ Missing inp k := by
+  constructor
+  · exact resolve_notFound f k
+  · intro hm
+    cases hr : resolve inp f k with
+    | ok => exact absurd hm (resolve_ok f k hr)
+    | notFound => rfl
+    | diverge => exact absurd hr h
 
 theorem stepsOK_append {inp : List Entry} : ∀ (p q : List String) (before : List Entry)
     (blocks : List (List Entry)), StepsOK inp (p ++ q) before blocks →
